@@ -52,7 +52,9 @@ def case_to_coq(c):
     def out(o):
         if o == "_": return "ONone"
         if o == "-": return "OPop None"
-        if o[0] == "x": return "OPurge %s%%Z" % o[1:]
+        if o[0] == "x":   # Purge returns uint64(queueLength): read it back as the int64 it was
+            n = int(o[1:])
+            return "OPurge (%d)%%Z" % (n - (1 << 64) if n >= (1 << 63) else n)
         return "OPop (Some %s)" % o
     def obs(o):
         a, b = o.split(":")
